@@ -73,7 +73,7 @@ def gen_namespace(rng, nsname, thorough, deps, want_blocks=True, main=True, gobj
     dep_types = []       # (ctype name) records of dependencies usable as pointer params
     for d in deps:
         for r in d.get('_records', []):
-            dep_types.append(d['ns'] + r)
+            dep_types.append('DpbShared' if r == '-shared' else d['ns'] + r)
 
     nrec = rng.randint(1, 4 if thorough else 3)
     records = rng.sample(RECORD_NAMES, nrec)
@@ -245,6 +245,13 @@ def gen_namespace(rng, nsname, thorough, deps, want_blocks=True, main=True, gobj
                 block(tl, fn['file'])
         if rng.random() < 0.4:
             D({'k': 'function', 'name': '%s_%s_count_all' % (p, sr), 'ret': ['basic', 'int'], 'params': []}, f)
+    if 'DpbShared' in dep_types:
+        fn = D({'k': 'function', 'name': '%s_use_shared' % p, 'ret': ['ptr', ['named', 'DpbShared']],
+                'params': [['shared', ['ptr', ['named', 'DpbShared']]]]}, rng.choice(apis))
+        if want_blocks:
+            block(['%s:' % fn['name'], '@shared: (transfer none): the shared thing', '', 'Uses it.', '',
+                   'Returns: (transfer none): the same'], fn['file'])
+
     # ---- a chain of callbacks that cannot be introspected: A takes a va_list, B takes A, and
     # functions/methods take A or B.  Introspectability has to propagate along the chain
     # whatever the order in which the typedefs and their users are met.
@@ -571,6 +578,17 @@ def gen_job(rng, thorough):
         # a dependency with two includes of its own: the order in which the transformer meets
         # A and B then depends on the iteration order of C's include *set*
         b = gen_namespace(rng, 'Dpb', False, [], want_blocks=False, main=False)
+        if rng.random() < 0.6:
+            # A also answers to the shorter identifier prefix "Dp", and both A and B describe a C
+            # type called DpbShared (as GLib/GObject/Gio share "G" and have moved types between
+            # them): which of the two a `DpbShared *` resolves to must not depend on the order in
+            # which the transformer happened to meet A and B
+            a['id_prefixes'] = ['Dpa', 'Dp']
+            for j, tag in ((a, 'a'), (b, 'b')):
+                f = [x for x in j['file_order'] if x.endswith('-typedefs.h')][0]
+                j['decls'].append({'k': 'typedef_struct_fwd', 'name': 'DpbShared', 'tag': '_DpbShared' + tag,
+                                   'file': f, 'line': 900})
+            a['_records'] = a['_records'] + ['-shared']
         c = gen_namespace(rng, 'Dpc', False, [a, b], want_blocks=False, main=False)
         deps = [c] if rng.random() < 0.5 else [c, b, a]
     gobject = rng.random() < 0.45
